@@ -16,7 +16,8 @@
 (*   hasPart  a styles part exists (was saved or loaded)                    *)
 (*   part, pver   ids / non-base versions written at the last save or       *)
 (*            carried by the opened package                                 *)
-(*   pending  ids added or changed through the style API since the last save*)
+(*   pending  {[id, kind]} ids added ("added") or changed ("changed") through *)
+(*            the style API since the last save                              *)
 (*   removed  ids the caller removed from the registry (and did not re-add) *)
 (*   refs     {[id, by]}  pStyle/rStyle/tblStyle ids present in the body,   *)
 (*            tagged with the helper that first emitted them                *)
@@ -68,6 +69,11 @@ ByOfRef(s, i) == IF \E r \in s.refs : r.id = i THEN (CHOOSE r \in s.refs : r.id 
 ByOfNum(s, n) == IF \E r \in s.nrefs : r.n = n THEN (CHOOSE r \in s.nrefs : r.n = n).by ELSE "unattributed"
 ByOfNote(s, k, i) == IF \E r \in s.noterefs : r.k = k /\ r.id = i
                      THEN (CHOOSE r \in s.noterefs : r.k = k /\ r.id = i).by ELSE "unattributed"
+PendIds(s) == {p.id : p \in s.pending}
+\* mark id as added/changed through the style API (an id added since the last save stays "added")
+Pend(s, i) == {p \in s.pending : p.id # i}
+              \cup {[id |-> i, kind |-> IF [id |-> i, kind |-> "added"] \in s.pending \/ i \notin s.reg
+                                        THEN "added" ELSE "changed"]}
 Heads(s) == {l \in Levels : Heading(l) \in RefIds(s)}
 HasParaTOC(s) == RefIds(s) \cap TocNameIds # {}
 MaxOf(S) == IF S = {} THEN 0 ELSE CHOOSE x \in S : \A y \in S : y <= x
@@ -182,11 +188,11 @@ Apply(s, op) ==
   IF Ret(s, op) # "ok" THEN s
   ELSE CASE op.op = "AddStyle" ->
               [s EXCEPT !.reg = @ \cup {op.id}, !.ver = SetVer(@, op.id, op.v),
-                        !.pending = @ \cup {op.id}, !.removed = @ \ {op.id}]
+                        !.pending = Pend(s, op.id), !.removed = @ \ {op.id}]
          [] op.op = "ModifyStyle" ->
-              [s EXCEPT !.ver = SetVer(@, op.id, op.v), !.pending = @ \cup {op.id}]
+              [s EXCEPT !.ver = SetVer(@, op.id, op.v), !.pending = Pend(s, op.id)]
          [] op.op = "RemoveStyle" ->
-              [s EXCEPT !.reg = @ \ {op.id}, !.ver = DropVer(@, {op.id}), !.pending = @ \ {op.id},
+              [s EXCEPT !.reg = @ \ {op.id}, !.ver = DropVer(@, {op.id}), !.pending = {p \in @ : p.id # op.id},
                         !.removed = IF op.id \in s.reg THEN @ \cup {op.id} ELSE @]
          [] op.op = "AddListItem" ->
               LET n == FreshNum(s)
@@ -212,7 +218,7 @@ Apply(s, op) ==
               LET ids == Emits(s, op)
                   t   == AddRefs(s, op, ids)
                   u   == IF Registers(op)
-                         THEN [t EXCEPT !.reg = @ \cup ids, !.removed = @ \ ids]
+                         THEN [t EXCEPT !.reg = @ \cup ids]
                          ELSE t
               IN [u EXCEPT !.sdt = IF op.op \in {"GenerateTOC", "AutoGenerateTOC", "TOCEntry"} THEN TRUE ELSE @]
 
@@ -230,8 +236,8 @@ Viol_Style(s, pkg) ==
   {<<"undefined-style", ByOfRef(s, i), IdClass(i), Orig3(s)>> :
        i \in {j \in pkg.refs : j \notin pkg.styles /\ ~Excused(s, j)}}
 Viol_Written(s, pkg) ==
-  {<<"style-not-written", When(s), IF i \in s.part THEN "changed" ELSE "added">> :
-       i \in {j \in s.pending \cap s.reg : j \notin pkg.styles \/ VerOf(pkg.sver, j) # VerOf(s.ver, j)}}
+  {<<"style-not-written", When(s), p.kind, IF p.id \in s.part THEN "in-part" ELSE "not-in-part">> :
+       p \in {q \in s.pending : q.id \in s.reg /\ (q.id \notin pkg.styles \/ VerOf(pkg.sver, q.id) # VerOf(s.ver, q.id))}}
 Viol_Num(s, pkg) ==
   {<<"undefined-num", s.origin, ByOfNum(s, n), "no-num">> :
        n \in {m \in pkg.numrefs : m # 0 /\ ~\E x \in pkg.nums : x.n = m}}
